@@ -48,6 +48,66 @@ def value_digest(v, inexact):
     return f"{a.dtype.kind}{tuple(a.shape)}:" + hashlib.sha1(np.ascontiguousarray(a).tobytes()).hexdigest()[:12]
 
 
+class Plain:
+    """A hand-written corpus entry with the interface of a generated case."""
+
+    def __init__(self, op, desc, tensors, kwargs=None, family="special"):
+        self.op, self._desc, self.tensors, self.kwargs, self.family = op, desc, tensors, kwargs or {}, family
+        self.opts, self.outputs, self.inputs, self.dtypes = {}, None, [0, 0], []
+        self.in_shapes = [tuple(np.shape(t)) for t in tensors]
+
+    def desc(self):
+        return self._desc
+
+    def call_kwargs(self):
+        return dict(self.kwargs)
+
+    def to_json(self):
+        return {"op": self.op, "desc": self._desc, "shapes": [list(s) for s in self.in_shapes], "kwargs": self.kwargs}
+
+
+def special_corpus(rng, nprng):
+    """Structures whose outcome hinges on an iteration order inside einx: ties between vectorised axes of update
+    operations with competing duplicate coordinates, and element-wise calls whose implicit output is ambiguous
+    (must be the same SemanticError under every hash seed)."""
+    out = []
+    names = ["a", "b", "p", "q", "m", "n", "zz", "k0"]
+    for _ in range(40):
+        u, v = rng.sample(names, 2)
+        nu, nv = rng.choice([2, 3]), rng.choice([2, 3])
+        h = rng.choice([3, 4, 5])
+        op = rng.choice(["set_at", "set_at", "add_at"])
+        form = rng.randrange(4)
+        coords = nprng.integers(0, 2, size=(nu, nv))  # many duplicates
+        upd = nprng.integers(0, 50, size=(nv, nu)).astype(np.float64) + 100
+        tgt = np.zeros(h)
+        if form == 0:
+            d = f"[x], {u} {v}, {v} {u} -> [x]"
+            t = [tgt, coords, upd]
+        elif form == 1:
+            d = f"[x], {u} {v} [1], {v} {u} -> [x]"
+            t = [tgt, coords[..., None], upd]
+        elif form == 2:
+            d = f"[x], {u} {v}, {v} {u}"
+            t = [tgt, coords, upd]
+        else:
+            d = f"c [x], {u} {v}, {v} c {u} -> c [x]"
+            t = [np.zeros((2, h)), coords, nprng.integers(0, 50, size=(nv, 2, nu)).astype(np.float64) + 100]
+        out.append(Plain(op, d, t, family="update"))
+    for _ in range(20):
+        u, v = rng.sample(names, 2)
+        op = rng.choice(["add", "multiply", "subtract", "maximum", "less"])
+        x = nprng.integers(0, 9, size=(2, 3)).astype(np.float64)
+        form = rng.randrange(3)
+        if form == 0:
+            out.append(Plain(op, f"{u} {v}, {v} {u}", [x, x.T.copy()]))
+        elif form == 1:
+            out.append(Plain(op, f"({u} {v}), {u} {v}", [x.reshape(6), x], {u: 2}))
+        else:
+            out.append(Plain(op, f"{u} {v} 1, {u} {v}", [x[..., None], x]))
+    return out
+
+
 def run(spec, out):
     import einx
     import warnings
@@ -61,8 +121,12 @@ def run(spec, out):
     fams = G.FAMILIES + ["update", "update", "update"]
     digests = []
     corpus = []
-    for k in range(spec["n"]):
-        case = G.generate(rng, nprng, family=rng.choice(fams), P={"maxlen": spec["maxlen"]})
+    extra = special_corpus(rng, nprng)
+    for k in range(spec["n"] + len(extra)):
+        if k >= spec["n"]:
+            case = extra[k - spec["n"]]
+        else:
+            case = G.generate(rng, nprng, family=rng.choice(fams), P={"maxlen": spec["maxlen"]})
         corpus.append(hashlib.sha1(repr((case.op, case.desc(), case.in_shapes, sorted(case.kwargs.items(), key=str), [np.asarray(t).tobytes() for t in case.tensors])).encode()).hexdigest()[:10])
         inexact = X.is_inexact(case)
         f = getattr(einx, case.op)
